@@ -17,7 +17,7 @@ GHOST_STARTERS = (
     "requires", "ensures", "invariant", "invariant_except_break", "decreases", "recommends", "returns",
     "proof {", "proof{", "let ghost", "let tracked", "assert(", "assert (", "assert forall", "#[verifier::",
     "#![verifier::", "broadcast use", "opens_invariants", "no_unwind", "}", "//", "reveal(", "assume_specification",
-    "by (", "by(",
+    "by (", "by(", "spec fn", "proof fn", "uninterp spec fn", "pub open spec fn", "pub closed spec fn",
 )
 
 
